@@ -684,6 +684,37 @@ def f{k}(a: int, b: int, xs: List[int], s: str, o: Optional[str]) -> int:
 '''
 
 
+GEN_UNINIT = '''
+def un_a{k}(c: bool, n: int) -> int:
+    if c:
+        x = n {op1} {c1}
+    while n {cmp1} {c2}:
+        n += 1
+        if n == 3:
+            y = n
+    return x + y
+
+def un_b{k}(c: bool, n: i64, f: float) -> float:
+    if c:
+        p: i64 = n {op1} 2
+        q: float = f * 2.0
+    if n {cmp2} {c1}:
+        del p
+    elif n == 7:
+        del q
+    return float(p) + q
+
+def un_c{k}(x: int, c: bool) -> int:
+    if c:
+        del x
+    return x
+
+def un_d{k}(y: i64, c: bool) -> i64:
+    if c:
+        del y
+    return y
+'''
+
 GEN_FLAG_LOOP = '''
 def w{k}(xs: List[int]) -> int:
     n = True
@@ -717,6 +748,9 @@ def gen_pass_programs(rng: vlib.Rng, n: int) -> list[dict]:
                                            cmp1=rng.choice(["<", "<=", "==", "!=", ">", ">="]), cmp2=rng.choice(["<", "<=", "==", "!=", ">", ">="]),
                                            bop=rng.choice(["and", "or"]), bop2=rng.choice(["and", "or"]),
                                            c1=rng.choice([0, 1, 7, 2 ** 31, 2 ** 62, 2 ** 64]), c2=rng.choice([3, 10, 2 ** 40]))
+        txt = "from mypy_extensions import i64\n" + txt
+        txt += GEN_UNINIT.format(k=k, op1=rng.choice("+-*"), cmp1=rng.choice(["<", "<="]), cmp2=rng.choice(["<", ">", "=="]),
+                                 c1=rng.choice([1, 9]), c2=rng.choice([5, 6]))
         txt += GEN_FLAG_LOOP.format(k=k, cmp1=rng.choice(["<", "<=", "!="]), cmp2=rng.choice(["<", ">", "=="]),
                                     c1=rng.choice([3, 5]), c2=rng.choice([7, 50]))
         items.append({"kind": "gen", "name": f"gen{k}", "text": txt})
@@ -858,6 +892,7 @@ def pass_stage(ctx: vlib.Ctx, exe: str | None, tmp: str) -> None:
     with ThreadPoolExecutor(max_workers=nj) as ex:
         outs = list(ex.map(one, enumerate(jobs)))
     pairs: list[dict] = []
+    upairs: list[dict] = []
     errs: dict[str, int] = {}
     ncases = 0
     for st, o, path in outs:
@@ -869,7 +904,8 @@ def pass_stage(ctx: vlib.Ctx, exe: str | None, tmp: str) -> None:
             if s["err"]:
                 key = s["err"].split(":")[0]
                 errs[key] = errs.get(key, 0) + 1
-        pairs += parse_pass_dump(path)
+        pairs += [q for q in parse_pass_dump(path) if q["kind"] in ("copyprop", "flagelim")]
+        upairs += [q for q in parse_rich_dump(path) if q["kind"] == "uninit"]
     ctx.log(f"(b) dumped {len(pairs)} before/after pairs from {ncases} programs in {time.time()-t0:.1f}s; not compiled: {errs}")
     ctx.cov["pass_programs"] = ncases
     ctx.cov["pass_programs_not_compiled"] = errs
@@ -929,8 +965,48 @@ def pass_stage(ctx: vlib.Ctx, exe: str | None, tmp: str) -> None:
                               f"is not provably equivalent to its input",
                               {"kind": "pass", "pass": p["kind"], "function": p["name"], "before": p["before"], "after": p["after"],
                                "driver_line": ln[:20000]})
-    ctx.add("evaluations", len(lines))
-    ctx.add("traces_validated_against_impl", len(lines))
+    # ---- insert_uninit_checks pairs: normalise to guarded blocks, hints, verified validator
+    ulines, umeta = [], []
+    ustats = {"guards": 0, "bitmap_guards": 0, "bitmap_updates": 0, "functions_with_checks": 0, "not_normalisable": 0}
+    for q in upairs:
+        try:
+            ln, info = uninit_case(q)
+        except Exception as ex:  # noqa
+            ln, info = None, {"reason": f"normaliser exception {type(ex).__name__}: {ex}"}
+        if ln is None:
+            ustats["not_normalisable"] += 1
+            if ustats["not_normalisable"] <= 3:
+                ctx.broke("C", "uninit pair cannot be normalised to guarded blocks", f"{q['name']}: {info}")
+            continue
+        for kk in ("guards", "bitmap_guards", "bitmap_updates"):
+            ustats[kk] += info[kk]
+        ustats["functions_with_checks"] += int(info["guards"] + info["bitmap_guards"] > 0)
+        ulines.append(ln)
+        umeta.append((q, info))
+    uout = run_driver(exe, ulines) if ulines else []
+    urej = uexcl = 0
+    for (q, info), o, ln in zip(umeta, uout, ulines):
+        if o != "1":
+            urej += 1
+            if info.get("undefines_argument"):
+                ctx.violation("uninit-undefines-argument",
+                              "insert_uninit_checks treats an ARGUMENT that may have been `del`eted like an unassigned local: the entry "
+                              "block overwrites it with the error value (bitmap-tracked types: its bit starts cleared), so every later read "
+                              f"raises UnboundLocalError even when the argument was never deleted: {q['name']}",
+                              {"kind": "pass", "pass": "uninit", "function": q["name"], "driver_line": ln[:20000]})
+            elif info.get("unnamed_in_prelude"):
+                # uninit.py deliberately skips the check for possibly-undefined registers WITHOUT a name ("XXX ... it should be OK??"):
+                # the validator cannot justify that; counted as an exclusion, not loosened
+                uexcl += 1
+            elif urej - uexcl <= 3:
+                ctx.violation(f"pass:uninit:{q['name']}", f"verified validator rejects the output of insert_uninit_checks on {q['name']} ({o})",
+                              {"kind": "pass", "pass": "uninit", "function": q["name"], "driver_line": ln[:20000]})
+    ctx.cov["uninit_pairs_validated"] = len(ulines)
+    ctx.cov["uninit_pairs_rejected"] = urej
+    ctx.cov["uninit_pairs_excluded_unnamed_register_unchecked"] = uexcl
+    ctx.cov["uninit_stats"] = ustats
+    ctx.add("evaluations", len(lines) + len(ulines))
+    ctx.add("traces_validated_against_impl", len(lines) + len(ulines))
     ctx.cov["pass_pairs_validated"] = len(lines)
     ctx.cov["pass_pairs_rejected"] = rejected
     ctx.cov["pass_pairs_rejected_by_pass"] = rej_kind
@@ -981,11 +1057,13 @@ def run(ctx: vlib.Ctx) -> None:
         "IR semantics: ops other than Assign/Goto/Branch/Return are uninterpreted functions of (source values, world); writes through LoadAddress pointers to registers are not modelled (validator side condition instead); an op is identified by its class + all non-Value attributes",
         "validator hints (replacement map, available-copy annotations, flag->label map) are computed in Python and are untrusted: the theorems quantify over them",
         "core (c) theorems are BOUNDED: every parameter list of <= 4 parameters x every call with <= 5 positional and <= 3 keyword actuals, enumerated completely inside Coq (vm_compute); C12/Bind.v cpython_bind is the accept/reject reference; TypeError message texts are not compared (they differ, examples in evidence)",
+        "uninit validator: AFTER is first normalised to guarded blocks (continuation blocks merged back, bitmap idioms recognised) by Python code that is TRUSTED; theorem hypotheses: defined values of types with a spare error value are not the error value, branches without traceback entry have no effect; axiom functional_extensionality_dep; possibly-undefined UNNAMED registers are not checked by uninit.py (its XXX clause): such functions are counted as exclusions",
         "extraction: ExtrOcamlBasic only; OCaml driver tools/ocaml/c05_driver.ml (I/O only)",
         "CPython 3.12.1 is the oracle for run-time behaviour; gcc builds with -Wno-tautological-compare",
     ]
     ok = ctx.prove("C05/Properties.v", ["C05"])
     ctx.prove("C05/PropertiesC.v", ["C05", "C12"])
+    ctx.prove("C05/PropertiesU.v", ["C05"])
     exe = vlib.build_extracted("c05_" + ctx.tier, "C05/Extract.v", "tools/ocaml/c05_driver.ml")
     if exe is None:
         ctx.broke("C", "extraction", "extracted model does not build")
@@ -1207,3 +1285,225 @@ def argparse_stage(ctx: vlib.Ctx, exe: str | None, tmp: str) -> None:
     ctx.cov["argparse_posonly_differences"] = posonly_diff
     ctx.cov["argparse_typeerror_messages_differ_examples"] = msg_examples
     ctx.log(f"(c) {len(sigs)} signatures x {len(calls)} calls: {bad}, positional-only differences {posonly_diff}")
+
+
+# =========================================================================================== (b2) uninit validator
+def parse_rich_dump(path: str) -> list[dict]:
+    """Pairs dumped by C05_irdump.dump_rich: {kind, name, before, after}; a function = {args, regs: {vid: (name, named,
+    overlap)}, blocks: [[label, handler, ops, term]]}, op = ("a", d, src) | ("O", d, sym, tag, [srcs])."""
+    pairs: list[dict] = []
+    kind = None
+    funcs: list[dict] = []
+    fn: dict = {}
+    blk: list = []
+    with open(path) as f:
+        for ln in f:
+            t = ln.split()
+            if not t:
+                continue
+            if t[0] == "P":
+                kind = t[1]
+                funcs = []
+            elif t[0] == "F":
+                fn = {"name": t[1] if len(t) > 1 else "?", "args": [], "regs": {}, "blocks": [], "addr": []}
+            elif t[0] == "A":
+                fn["args"] = [int(x) for x in t[1:]]
+            elif t[0] == "X":
+                fn["addr"] = [int(x) for x in t[1:]]
+            elif t[0] == "N":
+                fn["regs"][int(t[1])] = (t[2], t[3] == "1", t[4] == "1")
+            elif t[0] == "B":
+                blk = [int(t[1]), int(t[2]), [], None]
+                fn["blocks"].append(blk)
+            elif t[0] == "a":
+                blk[2].append(("a", int(t[1]), t[2]))
+            elif t[0] == "o":
+                blk[2].append(("o", int(t[1]), int(t[2]), t[3:]))
+            elif t[0] == "O":
+                blk[2].append(("O", int(t[1]), int(t[2]), t[3], t[4:]))
+            elif t[0] in ("g", "c", "r", "u"):
+                blk[3] = tuple(t)
+            elif t[0] == "E":
+                funcs.append(fn)
+                if len(funcs) == 2:
+                    pairs.append({"kind": kind, "name": funcs[0]["name"], "before": funcs[0], "after": funcs[1]})
+                    funcs = []
+    return pairs
+
+
+BITMAP_MASK = (1 << 32) - 1
+
+
+def uninit_case(p: dict) -> tuple[str | None, dict]:
+    """Normalise the AFTER function of an insert_uninit_checks pair into guarded blocks (TRUSTED step, see notes), compute the
+    untrusted hints, and encode the request line for the extracted validator.  Returns (line or None, info)."""
+    before, after = p["before"], p["after"]
+    nb = len(before["blocks"])
+    ab = {b[0]: b for b in after["blocks"]}
+    regs = dict(before["regs"])
+    regs.update(after["regs"])
+    is_bitmap = {v for v, (nm, _, _) in regs.items() if nm.startswith("__locals_bitmap")}
+    info: dict[str, Any] = {"guards": 0, "bitmap_guards": 0, "bitmap_updates": 0}
+
+    def is_err_block(lbl: int) -> bool:
+        b = ab.get(lbl)
+        return bool(b and lbl > nb and len(b[2]) == 1 and b[2][0][0] == "O" and b[2][0][3] == "raise_unbound" and b[3] and b[3][0] == "u")
+
+    def gop_plain(o) -> str:
+        if o[0] == "a":
+            return f"p a {o[1]} {o[2]}"
+        return f"p o {o[1]} {o[2]} {len(o[4])} " + " ".join(o[4])
+
+    def term_s(t) -> str:
+        if t[0] == "c":
+            return " ".join(t[:6])
+        return " ".join(t)
+    defk, iserrk, raisef = set(), set(), set()
+    bmt: dict[int, tuple[int, int]] = {}
+    for fnx in (before, after):
+        for b in fnx["blocks"]:
+            if b[3] and b[3][0] == "c" and b[3][6] == "iserr":
+                iserrk.add(int(b[3][1]))
+            for o in b[2]:
+                if o[0] == "O" and o[3] == "raise_unbound":
+                    raisef.add(o[2])
+    gafter: list[tuple[int, list[str], tuple]] = []
+    merged: set[int] = set()
+    errs: list[int] = []
+    for L in range(1, nb + 1):
+        cur = ab.get(L)
+        if cur is None:
+            return None, {"reason": "original block missing in AFTER"}
+        gops: list[str] = []
+        while True:
+            ops = cur[2]
+            i = 0
+            while i < len(ops):
+                o = ops[i]
+                if o[0] == "O" and o[3] == "undef":
+                    gops.append(f"U {o[1]}")
+                elif o[0] == "a" and o[1] in is_bitmap and o[2][0] == "k":
+                    gops.append(f"I {o[1]}")
+                elif (o[0] == "O" and (o[3].startswith("or:") or o[3].startswith("and:")) and o[4] and o[4][0][0] == "v"
+                      and int(o[4][0][1:]) in is_bitmap and i + 1 < len(ops) and ops[i + 1][0] == "a"
+                      and ops[i + 1][1] == int(o[4][0][1:]) and ops[i + 1][2] == f"v{o[1]}"):
+                    B = int(o[4][0][1:])
+                    val = int(o[3].split(":")[1])
+                    setbit = o[3].startswith("or:")
+                    bit = val if setbit else (BITMAP_MASK ^ val)
+                    if bit <= 0 or bit & (bit - 1):
+                        return None, {"reason": "bitmap update with a non-single-bit mask"}
+                    bi = bit.bit_length() - 1
+                    gops.append(f"{'S' if setbit else 'C'} {B} {bi}")
+                    info["bitmap_updates"] += 1
+                    # which register does this bit track: the assignment right before
+                    if gops[:-1] and gops[-2].startswith("p a "):
+                        bmt.setdefault(int(gops[-2].split()[2]), (B, bi))
+                    i += 1
+                elif (o[0] == "O" and o[3].startswith("and:") and i + 2 == len(ops) and ops[i + 1][0] == "O" and ops[i + 1][3] == "eqz"
+                      and ops[i + 1][4] and ops[i + 1][4][0] == f"v{o[1]}" and cur[3] and cur[3][0] == "c"
+                      and cur[3][3] == f"v{ops[i + 1][1]}" and cur[3][6] == "bool" and cur[3][2] == "0" and is_err_block(int(cur[3][4]))):
+                    B = int(o[4][0][1:])
+                    bit = int(o[3].split(":")[1])
+                    gops.append(f"T {B} {bit.bit_length() - 1} {cur[3][4]}")
+                    info["bitmap_guards"] += 1
+                    errs.append(int(cur[3][4]))
+                    i += 1
+                else:
+                    gops.append(gop_plain(o))
+                i += 1
+            t = cur[3]
+            if t is None:
+                return None, {"reason": "block without terminator"}
+            if t[0] == "c" and is_err_block(int(t[4])) and int(t[5]) > nb and int(t[5]) in ab:
+                if not (gops and gops[-1].startswith("T ") and gops[-1].endswith(" " + t[4])):
+                    gops.append(f"G {t[1]} {t[2]} {t[3]} {t[4]}")
+                    info["guards"] += 1
+                    errs.append(int(t[4]))
+                    if t[6] == "iserr" and t[7] == "0":
+                        defk.add(int(t[1]))
+                merged.add(int(t[5]))
+                cur = ab[int(t[5])]
+                continue
+            gafter.append((L, gops, t))
+            break
+    for E in sorted(set(errs)):
+        gafter.append((E, [gop_plain(ab[E][2][0])], ab[E][3]))
+    for lbl, b in ab.items():
+        if lbl > nb and lbl not in merged and lbl not in errs:
+            gafter.append((lbl, [gop_plain(o) for o in b[2]], b[3]))
+    gbefore = []
+    for b in before["blocks"]:
+        gbefore.append((b[0], [f"U {o[1]}" if (o[0] == "O" and o[3] == "undef") else gop_plain(o) for o in b[2]], b[3]))
+    if any(t is None for _, _, t in gbefore):
+        return None, {"reason": "block without terminator"}
+    rev = {v: k for k, v in bmt.items()}
+    # ---- must-defined annotations (untrusted): forward fixpoint on the guarded AFTER blocks
+    universe = set(regs) | {int(g.split()[2]) for _, gs, _ in gafter for g in gs if g.startswith("p ")}
+    args = set(after["args"])
+    labels = [l for l, _, _ in gafter]
+    blocks = {l: (gs, t) for l, gs, t in gafter}
+
+    def transfer(D: set[int], gs: list[str]) -> set[int]:
+        D = set(D)
+        U: set[int] = set()
+        for g in gs:
+            w = g.split()
+            if w[0] == "p":
+                d = int(w[2])
+                if w[1] == "a" and w[3][0] == "v" and int(w[3][1:]) in U:
+                    D.discard(d)
+                else:
+                    D.add(d)
+                U.discard(d)
+            elif w[0] == "U":
+                D.discard(int(w[1]))
+                U.add(int(w[1]))
+            elif w[0] == "G" and w[3][0] == "v":
+                D.add(int(w[3][1:]))
+                U.discard(int(w[3][1:]))
+            elif w[0] == "T":
+                r = rev.get((int(w[1]), int(w[2])))
+                if r is not None:
+                    D.add(r)
+                    U.discard(r)
+        return D
+    ain = {l: set(universe) for l in labels}
+    ain[labels[0]] = set(args)
+    preds: dict[int, list[int]] = {l: [] for l in labels}
+    for l, (gs, t) in blocks.items():
+        for s in term_succs(t):
+            if s in preds:
+                preds[s].append(l)
+    changed, it = True, 0
+    while changed and it < 2000:
+        changed = False
+        it += 1
+        aout = {l: transfer(ain[l], blocks[l][0]) for l in labels}
+        for l in labels[1:]:
+            new = set(ain[l])
+            for q in preds[l]:
+                new &= aout[q]
+            if new != ain[l]:
+                ain[l] = new
+                changed = True
+    tracked = sorted(v for v, (_, named, _) in regs.items() if named)
+
+    def plist(xs) -> str:
+        xs = list(xs)
+        return f"{len(xs)} " + " ".join(map(str, xs))
+
+    def enc(gf) -> str:
+        return f"{len(gf)} " + " ".join(f"{l} {len(gs)} " + " ".join(gs) + " " + term_s(t) for l, gs, t in gf)
+    line = ("un " + plist(tracked) + " " + plist(sorted(args)) + f" {len(bmt)} " + " ".join(f"{r} {B} {i}" for r, (B, i) in sorted(bmt.items()))
+            + " " + plist(sorted(defk)) + " " + plist(sorted(iserrk)) + " " + plist(sorted(raisef))
+            + f" {len(labels)} " + " ".join(f"{l} {plist(sorted(ain[l]))}" for l in labels)
+            + " " + enc(gbefore) + " " + enc(gafter))
+    info["bitmap_registers"] = len(bmt)
+    info["unnamed_in_prelude"] = any(a.startswith("U ") and b.startswith("p a ") and b.split()[3] == "v" + a.split()[1]
+                                     and not regs.get(int(b.split()[2]), ("", True, False))[1] for a, b in zip(blocks[labels[0]][0], blocks[labels[0]][0][1:]))
+    eg = blocks[labels[0]][0]
+    info["undefines_argument"] = (any(a.startswith("U ") and b.startswith("p a ") and b.split()[3] == "v" + a.split()[1] and int(b.split()[2]) in args
+                                      for a, b in zip(eg, eg[1:])) or any(r in args for r in bmt))
+    info["prelude_regs"] = [int(g.split()[2]) for g in blocks[labels[0]][0] if g.startswith("p a ") and g.split()[3][0] == "v"][:0]
+    return " ".join(line.split()), info
